@@ -371,6 +371,17 @@ func init() {
 				return
 			}
 			maskVal := andNot.Y
+			// the number of TSNs consumed per word: startTSN += step
+			var stepVal ssa.Value
+			for _, e := range phiStart.Edges {
+				if b, ok := unconv(e).(*ssa.BinOp); ok && b.Op == token.ADD && unconv(b.X) == ssa.Value(phiStart) {
+					stepVal = b.Y
+				}
+			}
+			if stepVal == nil {
+				c.Fail("clear-mask-shape", c.P.Pos(clr.Pos()), "clearTSNRange: the start TSN is not advanced by a per-word count")
+				return
+			}
 			one := constant.MakeInt64(1)
 			bad := ""
 			n := 0
@@ -380,7 +391,7 @@ func init() {
 						if rem != cnt && cnt != 64-off {
 							continue // a larger remainder only matters when the range runs to the end of the word
 						}
-						var got constant.Value
+						var got, gotStep constant.Value
 						_, und := c.P.PEval(clr, PEConfig{
 							BindVal: func(v ssa.Value) (constant.Value, bool) {
 								if v == ssa.Value(phiStart) {
@@ -394,6 +405,7 @@ func init() {
 							Observe: func(in ssa.Instruction, get func(ssa.Value) constant.Value) {
 								if in == ssa.Instruction(store) {
 									got = get(maskVal)
+									gotStep = get(stepVal)
 								}
 							},
 							StopAt: func(in ssa.Instruction) string {
@@ -408,6 +420,12 @@ func init() {
 						if und != "" || got == nil || !constant.Compare(got, token.EQL, exp) {
 							if bad == "" {
 								bad = fmt.Sprintf("offset=%d n=%d remaining=%d: mask=%s want %s %s", off, cnt, rem, render(got), exp.String(), und)
+							}
+						}
+						// the loop consumes exactly as many TSNs as the mask clears
+						if gotStep == nil || !constant.Compare(constant.ToInt(gotStep), token.EQL, constant.MakeInt64(cnt)) {
+							if bad == "" {
+								bad = fmt.Sprintf("offset=%d remaining=%d: the loop advances by %s TSNs but the mask clears %d: the bits of the TSNs skipped in the next word stay set", off, rem, render(gotStep), cnt)
 							}
 						}
 					}
